@@ -3,7 +3,7 @@ import Pcore.Model.SliceHeap
 Helper lemmas for C08 (property theorems are in `Pcore/Props/C08.lean`): the side condition on the idiom table, the
 abstraction from heap states to pure states, the SEALING invariant and its preservation by every step.
 -/
-namespace Pcore.Coll
+namespace Pcore.Heap
 
 /-! ### the side condition on the regenerated table -/
 
@@ -248,4 +248,4 @@ theorem read_sub_window (h : Heap) (recv : Slice) (lo hi : Int) (hok : winOK (h.
   congr 1
   omega
 
-end Pcore.Coll
+end Pcore.Heap
